@@ -78,7 +78,8 @@ def mk_area(r, kind, lon_c, lat_c, span_m, shape, flip=False, crs_centre=None):
         half = span_m / 111000.0 / 2.0
         half_x = half / max(0.2, math.cos(math.radians(min(abs(lat_c), 80))))
         half_y = half
-        cy = max(-89.0 + half_y, min(89.0 - half_y, cy))
+        half_y = min(half_y, 44.0)
+        cy = max(-89.5 + half_y, min(89.5 - half_y, cy))       # a well-formed longlat area stays between the poles
     else:
         cx, cy = _proj_centre(proj, lon_c, lat_c)
         if not (math.isfinite(cx) and math.isfinite(cy)):
@@ -86,7 +87,7 @@ def mk_area(r, kind, lon_c, lat_c, span_m, shape, flip=False, crs_centre=None):
         half_x = half_y = span_m / 2.0
     # non-square pixels now and then
     if r.random() < 0.25:
-        half_y *= r.choice([0.5, 0.75, 1.5])
+        half_y *= r.choice([0.5, 0.75, 1.5]) if kind != "longlat" else r.choice([0.5, 0.75])
     ext = [cx - half_x, cy - half_y, cx + half_x, cy + half_y]
     if flip:
         ext = [ext[0], ext[3], ext[2], ext[1]] if flip == "y" else [ext[2], ext[1], ext[0], ext[3]]
@@ -322,14 +323,18 @@ def thin_target(case):
     return min(case["tgt"]["shape"]) == 1
 
 
-def input_class(case, cols):
+def failure_key(clause, api, case, cols):
+    """attribution key: failures of the geometric hypothesis H_poly on an input class where the outline handed to shapely is
+    known to be torn / lossy are keyed by that class (whatever the clause); everything else by clause + api + thickness"""
+    if api == "gas" and not case.get("_same_crs"):
+        return "C11.H_poly.gas.different_crs"
     if wraps_source_crs(case, cols):
-        return "target_wraps_source_crs_antimeridian"
+        return "C11.H_poly.%s.target_wraps_source_crs_antimeridian" % api
     g = geos_outline_lossy(case)
-    if g:
-        return g
+    if g and api == "slicer":
+        return "C11.H_poly.slicer.%s" % g
     geos = case["src"]["kind"] == "geos"
-    return ("geos_" if geos else "") + ("one_pixel_thick_target" if thin_target(case) else "general")
+    return "C11.%s.%s.%s" % (clause, api, ("geos_" if geos else "") + ("one_pixel_thick_target" if thin_target(case) else "general"))
 
 
 def judge_cover(case, out, res, api):
@@ -357,10 +362,10 @@ def judge_cover(case, out, res, api):
             if n_hull == 0:
                 case["_outer_band_only"] = True
                 return None
-            return ("C11.nonoverlap.%s.%s" % (api, input_class(case, cols)),
+            return (failure_key("nonoverlap", api, case, cols),
                     "%s reports %s(%s) although %d of %d target pixel centres fall on the source grid (%d inside the hull of "
                     "the source pixel centres)" % (api, e, res.get("msg", ""), n_on, cols.size, n_hull))
-        return ("C11.crash.%s.%s" % (api, input_class(case, cols)),
+        return (failure_key("crash", api, case, cols),
                 "%s raises %s(%s) although %d of %d target pixel centres fall on the source grid" % (
                     api, e, res.get("msg", ""), n_on, cols.size))
     xs, xe, ys, ye = res["sl"]
@@ -373,7 +378,7 @@ def judge_cover(case, out, res, api):
     bad = ~(okc & okr)
     if bad.any():
         i = int(np.flatnonzero(bad)[0])
-        return ("C11.cover.%s.%s" % (api, input_class(case, cols)),
+        return (failure_key("cover", api, case, cols),
                 "%s returns x[%d:%d] y[%d:%d] but %d of %d on-grid target pixel centres have their containing source pixel "
                 "outside, e.g. fractional (col,row)=(%.4f,%.4f)" % (api, xs, xe, ys, ye, int(bad.sum()), n_on,
                                                                      float(cols[on][i]), float(rows[on][i])))
@@ -585,6 +590,7 @@ def judge(case, o):
     if "setup_err" in o:
         return v
     res = o["res"]
+    case["_same_crs"] = bool(o.get("inst", {}).get("same_crs"))
     j = judge_cover(case, o, res, api)
     if j:
         v.append(j)
